@@ -3,11 +3,14 @@
    OCaml's own; nat, positive, N, Z stay inductive.  No Extract Constant. *)
 Require Extraction.
 Require Import ExtrOcamlBasic.
-From Flussab Require Import Base Parsed Reader Writer.
+From Flussab Require Import Base Parsed Reader Writer Prog Text.
 Extraction "extracted/model.ml"
   Parsed.err_into Parsed.or_give_up Parsed.optional Parsed.matches Parsed.or_parse
   Parsed.or_always_parse Parsed.and_then Parsed.and_also Parsed.and_do Parsed.map
   Parsed.map_err Parsed.from_result Parsed.r_err_into Parsed.r_and_also Parsed.r_and_do
   Reader.reader_init Reader.run Reader.source_of_buf_reader
   Writer.writer_init Writer.wrun Writer.decimal Writer.in_range
+  Prog.crun Prog.srun Prog.view_init Reader.step
+  Text.ascii_digits Text.signed_ascii_digits Text.ascii_digits_multi Text.signed_ascii_digits_multi
+  Text.tabs_or_spaces Text.newline Text.next_newline Text.fixed Text.swar
   Z.add N.add N.mul N.sub N.div_eucl N.eqb N.ltb N.leb N.of_nat N.to_nat.
